@@ -156,6 +156,29 @@ func main() {
 		base := mk(tip, []*types.Transaction{twin(9500)}, treex.Bits[0])
 		dl("block-with-low-fee-tx", craft(base, 0, transfer(cfg, rcv[3], 11, 10, 9500, 0, cid, true)))
 	}
+	// a group whose SECOND member is expired (by height / by time) while its head is not, built from a twin
+	// group that differs only in that expiry
+	{
+		mkGroup := func(nonce int64, exp2 int64) []*types.Transaction {
+			a := transfer(cfg, rcv[1], 21, 1000000, nonce, 0, cid, false)
+			b := transfer(cfg, rcv[2], 22, 1000000, nonce+1, exp2, cid, false)
+			g, err := types.CreateTxGroup([]*types.Transaction{a, b}, cfg.GetMinTxFeeRate())
+			if err != nil {
+				panic(fmt.Sprint("group: ", err))
+			}
+			for i := range g.Txs {
+				g.SignN(i, types.SECP256K1, vnode.Key(vnode.GenesisKeyHex))
+			}
+			return g.GetTxs()
+		}
+		for i, exp2 := range []int64{13, tip.BlockTime} {
+			base := mk(tip, mkGroup(int64(9850+10*i), 0), treex.Bits[0])
+			c := types.Clone(base).(*types.Block)
+			c.Txs = mkGroup(int64(9850+10*i), exp2)
+			c.TxHash = merkle.CalcMerkleRoot(cfg, c.Height, c.Txs)
+			dl(fmt.Sprintf("block-with-group-whose-second-member-is-%s", []string{"expired-by-height", "expired-by-time"}[i]), c)
+		}
+	}
 	// same transaction twice in one body
 	{
 		base := mk(tip, []*types.Transaction{twin(9600), twin(9601)}, treex.Bits[0])
